@@ -1049,6 +1049,8 @@ pub struct World {
     /// yield injection at channel sends/receives (per-mille)
     pub sched_rng: Rng64,
     pub sched_yield_pm: u32,
+    /// tuning knob: upper bound on the capacity of every bounded mpsc channel rdest creates
+    pub chan_cap: Option<usize>,
 }
 
 impl World {
@@ -1063,6 +1065,7 @@ impl World {
             fs_yield_pm: 0,
             sched_rng: Rng64::sub(seed, "sched-yield"),
             sched_yield_pm: 0,
+            chan_cap: None,
         }
     }
 }
@@ -1146,6 +1149,17 @@ pub fn now_ms() -> u64 {
 
 pub fn log_len() -> usize {
     LOG.with(|l| l.borrow().entries.len())
+}
+
+/// Capacity a bounded channel asked for with `buffer` slots really gets in this run.
+pub fn chan_cap(buffer: usize) -> usize {
+    match try_with(|w| w.chan_cap).unwrap_or(None) {
+        Some(c) if c < buffer => {
+            bump("chan_cap_reduced");
+            c.max(1)
+        }
+        _ => buffer,
+    }
 }
 
 /// Seeded decision "this task is slow right here": used by the channel shims.
